@@ -18,7 +18,7 @@ METHODS = ['cosine', 'corr', 'cosine_cov', 'corr_cov']
 
 RULE = ("Generated fitting problems: 4-6 conditions with 'index' and a label descriptor, 2-4 basis / "
         "2-5 candidate RDMs made linearly independent by construction, 1-5 training RDMs (noisy positive "
-        "mixtures of the basis or unrelated vectors), optional common missing entries, optional pattern "
+        "mixtures of the basis, their mirror image (negative similarities) or unrelated vectors), optional common missing entries, optional pattern "
         "selection of 4-7 indices with repeats (training data = the sample of the full data for the sorted "
         "selection, same-condition pairs NaN), methods cosine / corr / cosine_cov / corr_cov with sigma_k "
         "None or a generated SPD matrix, normalise on/off. Oracle: own similarity on the explicitly "
@@ -44,7 +44,8 @@ ASSUMPTIONS = [
 TOL = {False: 1e-8, True: 1e-5}     # optimality tolerance without / with V (library uses cg rtol 1e-5)
 TOL_INTERP = 1e-7
 W_TOL = 3e-5
-_STATS = {'bfgs_gap_max': 0.0, 'bfgs_cases': 0, 'regress_gap_max': 0.0, 'interp_gap_max': 0.0}
+_STATS = {'bfgs_gap_max': 0.0, 'bfgs_cases': 0, 'regress_gap_max_plain': 0.0, 'regress_gap_max_cov': 0.0,
+          'interp_gap_max': 0.0}
 _STAT_DIR = '/tmp'
 
 
@@ -202,7 +203,7 @@ def problem(draw, n_basis_range=(2, 4), independent=True, max_train=5):
     nan_mode = draw(st.sampled_from(['none', 'none', 'some']))
     sigma_mode = draw(st.sampled_from(['none', 'matrix']))
     desc = draw(st.sampled_from(['index', 'lab']))
-    kind = draw(st.sampled_from(['mixture', 'mixture', 'unrelated']))
+    kind = draw(st.sampled_from(['mixture', 'mixture', 'unrelated', 'anti']))
     k_want = draw(st.integers(*n_basis_range))
     t = draw(st.integers(1, max_train))
     # selection: at least four distinct conditions (six distinct pairs)
@@ -247,13 +248,16 @@ def problem(draw, n_basis_range=(2, 4), independent=True, max_train=5):
         basis.append(vec)
     data = []
     for _ in range(t):
-        if kind == 'mixture':
+        if kind in ('mixture', 'anti'):
             w = draw(st.lists(st.integers(0, 8), min_size=k, max_size=k))
             if sum(w) == 0:
                 w[0] = 1
             noise = draw(st.lists(st.integers(-16, 16), min_size=P, max_size=P))
             amp = draw(st.sampled_from([0.0625, 0.25, 1.0]))
             vec = [sum(w[b] * basis[b][e] for b in range(k)) / 4.0 + amp * noise[e] for e in range(P)]
+            if kind == 'anti':      # negatively related to the basis (similarities below zero)
+                top = max(vec) + 1.0
+                vec = [top - x for x in vec]
         else:
             vec = [x / 8.0 for x in draw(st.lists(el, min_size=P, max_size=P))]
         if max(vec[e] for e in good) == min(vec[e] for e in good):
@@ -425,7 +429,7 @@ def _check_regress_one(case, b, fitter):
     else:
         th_ref = b.scorer.ls(b.basis_exp)
         s_ref = b.score_theta(th_ref)
-    _stat('regress_gap_max', s_ref - s_fit)
+    _stat('regress_gap_max_cov' if cov else 'regress_gap_max_plain', s_ref - s_fit)
     tag = '%s:%s' % ('_nn' if nn else '', 'cov' if cov else 'plain')
     if not s_fit >= s_ref - tol:
         raise Violation('%s: fitted weights %s score %.10g, the %s solution %s scores %.10g' % (
@@ -801,7 +805,7 @@ SUBCHECKS = [
                  'competitors, normalisation, restriction to selected conditions, duplicates'),
     SubCheck('select', select_case(), check_select, classify_select, quick=80,
              doc='fit_select / ModelSelect.fit: best of all candidates (exhaustive per case)'),
-    SubCheck('interpolate', interpolate_case(), check_interpolate, classify_interpolate, quick=40,
+    SubCheck('interpolate', interpolate_case(), check_interpolate, classify_interpolate, quick=120,
              doc='fit_interpolate / ModelInterpolate.fit: convex adjacent mixture, no grid mixture better'),
     SubCheck('bfgs', bfgs_case(), check_bfgs, classify_bfgs, quick=12,
              doc='fit_optimize / fit_optimize_positive: unit norm, sign, restriction, reproducibility; '
